@@ -41,16 +41,16 @@ PER_ATOM = ["atnums", "atcorenums", "atcoords", "atmasses", "atgradient", "atfro
 ATTRS = ["atnums", "atcorenums", "charge", "nelec", "spinpol", "mo", "atcoords", "atmasses", "atgradient", "atfrozen"]
 READS = ["charge", "nelec", "spinpol", "atcorenums", "natom", "atnums"]
 VALUES = {
-    "atnums": [None, [1], [8, 1], [6, 6], [8, 1, 1], [3, 17], [0, 2]],
-    "atcorenums": [None, [1.0], [6.0, 1.0], [8.0, 1.0], [4.0, 4.0], [8.0, 1.0, 1.0], [2.5, 0.0]],
+    "atnums": [None, [1], [8, 1], [6, 6], [8, 1, 1], [3, 17], [0, 2], []],
+    "atcorenums": [None, [1.0], [6.0, 1.0], [8.0, 1.0], [4.0, 4.0], [8.0, 1.0, 1.0], [2.5, 0.0], []],
     "charge": [None, 0, 1, -1, 0.5, 2.0],
     "nelec": [None, 10, 9, 2, 9.5, 0],
     "spinpol": [None, 0, 1, 2],
-    "mo": [None, "R2", "R21", "U2", "Rfrac", "G"],
-    "atcoords": [None, 1, 2, 3],
-    "atmasses": [None, 1, 2, 3],
-    "atgradient": [None, 1, 2, 3],
-    "atfrozen": [None, 1, 2, 3],
+    "mo": [None, "R2", "R21", "U2", "Rfrac", "G", "Rnone", "Unone"],
+    "atcoords": [None, 1, 2, 3, 0],
+    "atmasses": [None, 1, 2, 3, 0],
+    "atgradient": [None, 1, 2, 3, 0],
+    "atfrozen": [None, 1, 2, 3, 0],
 }
 
 
@@ -70,6 +70,10 @@ def make_value(attr, v):
             return MolecularOrbitals("restricted", 2, 2, occs=np.array([1.6, 0.4]))
         if v == "G":
             return MolecularOrbitals("generalized", None, None, occs=np.array([1.0, 1.0, 0.0]))
+        if v == "Rnone":
+            return MolecularOrbitals("restricted", 2, 2)  # orbitals without occupation numbers
+        if v == "Unone":
+            return MolecularOrbitals("unrestricted", 1, 2)
     if attr == "atcoords" or attr == "atgradient":
         return np.arange(3 * v, dtype=float).reshape(v, 3) * 0.5
     if attr == "atmasses":
@@ -182,6 +186,13 @@ def _v(cls, msg, trace, k, stale):
 
 
 def check_invariants(obj, model, trace, k, out):
+    try:
+        _check_invariants(obj, model, trace, k, out)
+    except Exception as exc:  # noqa: BLE001 - an accepted object whose own accessors crash is inconsistent
+        out.append(_v("I0_accessor_crashes", f"reading the observables raises {type(exc).__name__}: {exc}", trace, k, model.stale()))
+
+
+def _check_invariants(obj, model, trace, k, out):
     from iodata import IOData  # noqa: F401
 
     stale = model.stale()
@@ -369,7 +380,7 @@ def gen_trace(rng):
     kwargs = {a: rng.choice(VALUES[a]) for a in attrs_}
     if rng.random() < 0.7:
         # bias towards consistent constructions (inconsistent ones end the history at once)
-        n = rng.choice([1, 2, 2, 3])
+        n = rng.choice([1, 2, 2, 3, 0])
         for a in list(kwargs):
             if a in PER_ATOM and kwargs[a] is not None:
                 cands = [v for v in VALUES[a] if v is not None and length_of(a, v) == n]
